@@ -413,6 +413,59 @@ def c14_hash_seed(seed: int, boost: int) -> bool:
     return ok
 
 
+ISO_FIRST = [
+    ("namespace gtsam { class Key { Key(); }; class Graph { Graph(); void add(const gtsam::Key& k) const; }; }", ["gtsam::Key"]),
+    ("namespace gtsam { template<T = {double}> class Box { Box(); void serialize() const; }; class Key { Key(); }; }", ["gtsam::Box<double>", "gtsam::BoxDouble"]),
+    ("class Key { Key(); }; class Other { Other(); void f(Key k) const; }; double g(const Key& k);", ["Key"]),
+    ("namespace gtsam { virtual class Key { Key(); }; virtual class Sub : gtsam::Key { Sub(); }; }", ["gtsam::Sub"]),
+]
+ISO_SECOND = [
+    "namespace store { class Key { Key(); }; class Table { Table(); void put(const store::Key& k, double w) const; static store::Key Make(store::Key k); }; double h(store::Key k); }",
+    "namespace gtsam { class Key { Key(); }; class Graph { Graph(); void add(const gtsam::Key& k) const; }; class Sub { Sub(gtsam::Key k); }; }",
+    "class Box { Box(); }; class BoxDouble { BoxDouble(); }; class User { User(); void u(Box b, BoxDouble d) const; };",
+]
+
+
+def _both(text, boost, ignore=("",)):
+    files, cpp, _w = pipe.matlab(text, boost=bool(boost), ignore=list(ignore))
+    return pipe.pybind(text, boost=bool(boost), ignore=list(ignore)), sorted(files.items())
+
+
+def c14_wrapper_isolation(first: int, second: int, boost: int) -> bool:
+    """
+    What a FRESH wrapper generates for a text does not depend on what other wrapper objects did earlier in the same
+    process — in particular on an earlier wrapper that ignored a class with the same unqualified name (no state shared
+    through class-level attributes or module globals).
+    pre: 0 <= first < len(ISO_FIRST) and 0 <= second < len(ISO_SECOND) and 0 <= boost <= 1
+    post: _
+    """
+    first, second, boost = pick(first, 0, len(ISO_FIRST)), pick(second, 0, len(ISO_SECOND)), pick(boost, 0, 2)
+    with concrete():
+        import json
+        import subprocess
+        import sys
+        from vlib.common import ROOT
+        text1, ignore1 = ISO_FIRST[first]
+        text2 = ISO_SECOND[second]
+        # reference: a pristine interpreter that never saw the first text
+        script = ("import sys, json\nsys.path.insert(0, %r)\nfrom harness import c14\n"
+                  "print(json.dumps(c14._both(json.loads(sys.argv[1]), int(sys.argv[2]))))" % ROOT)
+        p = subprocess.run([sys.executable, "-c", script, json.dumps(text2), str(boost)], capture_output=True, text=True, env=dict(os.environ))
+        ok = True
+        if p.returncode != 0:
+            ok = _fail(problem="reference interpreter failed: " + p.stderr[-300:])
+        else:
+            ref = json.loads(p.stdout.strip().splitlines()[-1])
+            _both(text1, boost, ignore1)
+            _both(text1, boost, ignore1)
+            got = json.loads(json.dumps(_both(text2, boost)))
+            if got != ref:
+                which = "pybind" if got[0] != ref[0] else [a[0] for a, b in zip(got[1], ref[1]) if a != b][:3]
+                ok = _fail(earlier_text=text1, earlier_ignore=ignore1, text=text2, differs_in=which)
+    reached({"first": first, "second": second, "boost": boost})
+    return ok
+
+
 def c14_repeat_fresh(t: int, boost: int) -> bool:
     """
     Two fresh wrappers of each kind on the same text give identical results (no module-level state).
@@ -446,5 +499,7 @@ def conds(tier):
                 bounds="3 entry points x %d previous contents of every output path x serialization (real temporary directory)" % len(VARIANTS)),
         xh.Cond(M, "c14_hash_seed", t(200, 600), kind=sb, examples=["seed=1, boost=1", "seed=3, boost=0"],
                 bounds="%d texts x 4 further hash seeds x serialization, fresh interpreters, another working directory" % len(SEED_TEXTS)),
+        xh.Cond(M, "c14_wrapper_isolation", t(200, 600), kind=sb, examples=["first=0, second=0, boost=0", "first=1, second=2, boost=1", "first=3, second=1, boost=0"],
+                bounds="%d earlier (text, ignore list) x %d later texts x serialization, compared with a pristine interpreter" % (len(ISO_FIRST), len(ISO_SECOND))),
         xh.Cond(M, "c14_repeat_fresh", t(120, 600), kind=sb, examples=["t=2, boost=1"], bounds="%d texts x serialization" % NT),
     ]
